@@ -463,6 +463,7 @@ pub fn generate(stream: &str, tier: &str, seed: u64) -> Vec<String> {
         "l1.sched" => gen_sched(&mut rng, thorough, &mut out),
         "l1.sched.read" => gen_sched_read(&mut rng, thorough, &mut out),
         "l1.sched.poll" => gen_sched_poll(&mut rng, thorough, &mut out),
+        "l1.sched.flush" => gen_sched_flush(&mut rng, thorough, &mut out),
         "l1.partial" => gen_partial(&mut rng, thorough, &mut out),
         "l1.dir.c01" => {
             for i in 0..ncases {
@@ -1007,6 +1008,38 @@ pub fn gen_sched_poll(rng: &mut Rng, thorough: bool, out: &mut Vec<String>) {
         if !thorough && rcache == "exp" {
             break;
         }
+        if !thorough && rcache == "default" {
+            break;
+        }
+    }
+}
+
+
+/// `l1.sched.flush`: as `l1.sched.poll`, but instead of the poller a task calls `StorageManager::flush_cache` on
+/// the serving instance's storage manager twice, whenever the schedule says.  NOT REGISTERED for any property: a
+/// flush that does not go through the directory's cache lock while requests are under way is outside what C13 and
+/// C16 state (DESIGN section 0.4); kept as an exploration tool only.
+pub fn gen_sched_flush(rng: &mut Rng, thorough: bool, out: &mut Vec<String>) {
+    let rt = rt();
+    for (cfg, rcache) in [("wv1", "lat:default"), ("exp", "default"), ("exp", "lat:1ms"), ("wv1", "default")] {
+        out.push(format!("fx.reset {cfg} none off"));
+        out.push(format!("ck {}", key_hex(&rt)));
+        let pool = user_pool(rng, 4);
+        for u in &pool {
+            for v in 1..=6u64 {
+                for fresh in [true, false] {
+                    out.push(format!("vrf {} {} {} {}", hex_or_dash(u), if fresh { "F" } else { "S" }, v, show_label(&vrf_label(&rt, cfg, u, fresh, v))));
+                }
+            }
+        }
+        let pair = |rng: &mut Rng, i: usize| format!("{} {}", hex_or_dash(&pool[i]), hex_or_dash(&rng.bytes(3)));
+        out.push(format!("fx.publish {} {} {}", pair(rng, 0), pair(rng, 1), pair(rng, 2)));
+        out.push(format!("fx.publish {} {}", pair(rng, 0), pair(rng, 1)));
+        let u0 = hex_or_dash(&pool[0]);
+        let b1 = format!("{} {}", pair(rng, 0), pair(rng, 3));
+        out.push(format!("sch.flush 2 {rcache} lookup {u0} || {b1}"));
+        out.push(format!("sch.flush 3 {rcache} epochhash || {b1}"));
+        out.push(format!("sch.flush 2 {rcache} history {u0} recent:1 | epochhash || {b1}"));
         if !thorough && rcache == "default" {
             break;
         }
